@@ -811,6 +811,8 @@ func (w *World) setRelationBatchNoNotify(filter Filter, comp ID, target Entity, 
 			continue
 		}
 
+		w.checkRelation(arch, comp)
+
 		if arch.RelationTarget == target {
 			continue
 		}
